@@ -105,8 +105,9 @@ func vhC06Reload(e *vhC06Env) *vhEnv {
 }
 
 type vhC06Ref struct {
-	id   string
-	fact map[string]interface{} // nil: absent
+	id        string
+	fact      map[string]interface{} // nil: absent
+	dependsOn *vhC06Ref              // the id its deleteWith names
 }
 
 // vhC06Op: one location-level operation on id index i. Returns the op's error and the
@@ -134,8 +135,30 @@ func vhC06Op(e *vhC06Env, ref []*vhC06Ref, step, op int) (error, *vhC06Ref) {
 			r.fact = nil
 		}
 	case 3:
+	case 4: // add a fact that names the other id in deleteWith (removed with it)
+		other := ref[0]
+		if r == ref[0] {
+			other = ref[1]
+		}
+		f := Map{"a": "dep", KW_DeleteWith: []interface{}{other.id}}
+		_, err = e.loc.AddFact(e.ctx, r.id, f)
+		if err == nil {
+			r.fact = map[string]interface{}(f)
+			r.dependsOn = other
+		}
 	default:
 		vassume(false)
+	}
+	if op == 2 && err == nil {
+		// the removal cascades to the fact that depends on the removed id
+		for _, x := range ref {
+			if x.dependsOn == r && x.fact != nil {
+				x.fact = nil
+			}
+		}
+	}
+	if op != 4 && err == nil {
+		r.dependsOn = nil
 	}
 	return err, r
 }
@@ -159,6 +182,24 @@ func VH_C06_fault(kind, op1, op2 int) {
 	e.fs.failAt = vsymInt("failAt", 1, 4)
 	ref := []*vhC06Ref{{id: vhIdD(0)}, {id: vhIdD(1)}}
 	for step, op := range []int{op1, op2} {
+		before := e.fs.failed
+		err, _ := vhC06Op(e, ref, step+1, op)
+		if e.fs.failed && !before {
+			vassert(err != nil, "storage-failure-reported")
+		} else {
+			vassert(err == nil, "operation-succeeds-without-fault")
+		}
+	}
+	vreach("end")
+}
+
+// VH_C06_fault3: three operations (e.g. fact, dependent fact, removal: the failing call may
+// be the dependent's Remove inside the cascade).
+func VH_C06_fault3(kind, op1, op2, op3 int) {
+	e := vhC06New(kind)
+	e.fs.failAt = vsymInt("failAt", 1, 6)
+	ref := []*vhC06Ref{{id: vhIdD(0)}, {id: vhIdD(1)}}
+	for step, op := range []int{op1, op2, op3} {
 		before := e.fs.failed
 		err, _ := vhC06Op(e, ref, step+1, op)
 		if e.fs.failed && !before {
